@@ -16,6 +16,7 @@ import (
 	"os"
 	"path/filepath"
 	"sync"
+	"sync/atomic"
 	"time"
 )
 
@@ -54,9 +55,13 @@ func c04Child(args []string) int {
 		var mu sync.Mutex
 		lastDelivery := time.Now()
 		consDone := make(chan struct{})
+		var stallUntil int64 // unix nanoseconds; the consumer takes nothing before
 		go func() {
 			defer close(consDone)
 			for {
+				if d := atomic.LoadInt64(&stallUntil) - time.Now().UnixNano(); d > 0 {
+					time.Sleep(time.Duration(d))
+				}
 				select {
 				case l := <-lines:
 					mu.Lock()
@@ -94,6 +99,9 @@ func c04Child(args []string) int {
 		}
 		fd, _ := os.OpenFile(path, os.O_APPEND|os.O_WRONLY, 0644)
 		for _, w := range c.Writes {
+			if w.StallMs > 0 {
+				atomic.StoreInt64(&stallUntil, time.Now().Add(time.Duration(w.StallMs)*time.Millisecond).UnixNano())
+			}
 			fd.Write(w.Data)
 			if w.PauseMs > 0 {
 				time.Sleep(time.Duration(w.PauseMs) * time.Millisecond)
